@@ -30,7 +30,7 @@ BUDGET = {
 def lb_ops(max_ops=100, with_time=False):
   pairs = [
       (9, st.just(['dispatch'])),
-      (5, st.tuples(st.just('complete'), st.integers(0, 40), st.sampled_from(['reply', 'reply', 'error'])).map(list)),
+      (5, st.tuples(st.just('complete'), st.integers(0, 40), st.sampled_from(['reply', 'reply', 'error', 'reply_chain'])).map(list)),
       (1, st.tuples(st.just('dup'), st.integers(0, 40)).map(list)),
       (1, st.tuples(st.just('down'), st.integers(0, 8), st.booleans()).map(list)),
       (1, st.tuples(st.just('up'), st.integers(0, 8)).map(list)),
